@@ -196,6 +196,64 @@ static std::string callv(const std::string& key, const std::vector<Integer>& a) 
         for (auto& f : fs2) s += " " + hz(f.first) + " " + hz(f.second);
         return s;
     }
+    // ---- container-output functions called with a PRE-FILLED / reused output container (previous result for another number m, plus junk):
+    //      what they leave in the container must be what the model says (divisors: assignment, the old content is dropped;
+    //      set / set(Lf,n) / Erathostene / write's Lf: push_back, the old entries stay in front, untouched)
+    if (key == "divinto") {
+        const Integer& m = a[1];
+        std::list<Integer> Lf; std::vector<unsigned long> Lo;
+        IF.set(Lf, Lo, n);
+        std::list<Integer> L, L2;
+        IF.divisors(L, m); L.push_back(Integer(0)); L.push_back(Integer(7)); L.push_back(Integer(7));
+        L2 = L;
+        IF.divisors(L, Lf, Lo);
+        IF.divisors(L2, n);
+        std::string s = vp::hex_ull(Lf.size());
+        size_t i = 0;
+        for (auto& f : Lf) { s += " " + hz(f) + " " + vp::hex_ull(i < Lo.size() ? Lo[i] : 0); ++i; }
+        for (auto* l : {&L, &L2}) { s += " " + vp::hex_ull(l->size()); for (auto& d : *l) s += " " + hz(d); }
+        return s;
+    }
+    if (key == "divalias") {       // divisors(Lf, Lf, Le): the output list is the list of factors itself
+        std::list<Integer> Lf; std::vector<unsigned long> Lo;
+        IF.set(Lf, Lo, n);
+        std::string s = vp::hex_ull(Lf.size());
+        size_t i = 0;
+        for (auto& f : Lf) { s += " " + hz(f) + " " + vp::hex_ull(i < Lo.size() ? Lo[i] : 0); ++i; }
+        IF.divisors(Lf, Lf, Lo);
+        s += " " + vp::hex_ull(Lf.size());
+        for (auto& d : Lf) s += " " + hz(d);
+        return s;
+    }
+    if (key == "setinto") {
+        const Integer& m = a[1];
+        std::vector<Integer> Lf; std::vector<unsigned long> Lo;
+        IF.set(Lf, Lo, m);
+        Lf.push_back(Integer(9)); Lo.push_back(77); Lf.push_back(Integer(4)); Lo.push_back(1);
+        std::vector<Integer> pf(Lf); std::vector<unsigned long> po(Lo);
+        bool c = IF.set(Lf, Lo, n);
+        std::string s = std::string(c ? "1" : "0") + " " + vp::hex_ull(pf.size());
+        for (size_t i = 0; i < pf.size(); ++i) s += " " + hz(pf[i]) + " " + vp::hex_ull(po[i]);
+        s += " " + vp::hex_ull(Lf.size()) + " " + vp::hex_ull(Lo.size());
+        for (size_t i = 0; i < Lf.size(); ++i) s += " " + hz(Lf[i]) + " " + vp::hex_ull(i < Lo.size() ? Lo[i] : 0);
+        return s;
+    }
+    if (key == "set1into" || key == "eratinto" || key == "writeinto") {
+        const Integer& m = a[1];
+        std::vector<Integer> Lf;
+        std::ostringstream o1, o2;
+        std::streambuf* old = std::cerr.rdbuf(nullptr);
+        if (key == "set1into") IF.set(Lf, m); else if (key == "eratinto") IF.Erathostene(Lf, m); else IF.write(o1, Lf, m);
+        Lf.push_back(Integer(9)); Lf.push_back(Integer(0)); Lf.push_back(Integer(9));
+        std::vector<Integer> pf(Lf);
+        if (key == "set1into") IF.set(Lf, n); else if (key == "eratinto") IF.Erathostene(Lf, n); else IF.write(o2, Lf, n);
+        std::cerr.rdbuf(old);
+        std::string s = vp::hex_ull(pf.size());
+        for (auto& x : pf) s += " " + hz(x);
+        s += " " + vp::hex_ull(Lf.size());
+        for (auto& x : Lf) s += " " + hz(x);
+        return s;
+    }
     if (key == "erat") {           // Erathostene(Lf, p): the sieve variant ("valid for p < BOUNDARY_factor")
         std::vector<Integer> Lf;
         std::streambuf* old = std::cerr.rdbuf(nullptr);
@@ -242,7 +300,7 @@ static void runv(const std::string& key, const std::vector<Integer>& a) {
 }
 static bool is_vkey(const std::string& k) {
     for (const char* v : {"lenstra", "pollard", "fermat", "pepin", "isprimer", "localprime", "tabule", "tabule2", "miller", "lehmann", "lehmannb",
-                          "write", "erat", "factorL", "setL"}) if (k == v) return true;
+                          "write", "erat", "factorL", "setL", "divinto", "divalias", "setinto", "set1into", "eratinto", "writeinto"}) if (k == v) return true;
     return false;
 }
 
@@ -420,6 +478,23 @@ static void gen(const std::string& tier, uint64_t seed) {
         if ((i & 3) == 0) { runv("lenstra", {p * p, Integer(5000), Integer(10)}); runv("lenstra", {p, Integer(5000), Integer(10)}); }
     }
     for (long n = -30; n < (th ? 30000 : 6000); ++n) runv("erat", {Integer((int64_t)n)});
+    // ---- the same container-output functions with a pre-filled / reused output container
+    {
+        std::vector<Integer> light;
+        for (auto& n : fa) if (!heavy(n)) light.push_back(n);
+        for (size_t i = 0; i < light.size(); i += (th ? 2 : 5)) {
+            const Integer& n = light[i];
+            const Integer& m = light[(i * 7 + 13) % light.size()];
+            runv("divinto", {n, m});
+            runv("setinto", {n, m});
+            runv("set1into", {n, m});
+            runv("writeinto", {n, m});
+        }
+        for (long n = 1; n < (th ? 6000 : 1500); ++n) runv("eratinto", {Integer((int64_t)n), Integer((int64_t)((n * 37 + 11) % 5000 + 1))});
+        // last (a broken aliasing can run off the exponent vector and abort the process under the sanitizers): flushed case by case
+        for (size_t i = 0; i < light.size(); i += (th ? 2 : 5)) { fflush(stdout); runv("divalias", {light[i]}); }
+    }
+    fflush(stdout);
     fflush(stdout);
 }
 
